@@ -6,7 +6,7 @@ from hypothesis import strategies as st
 
 from ECAgent.Core import Model, SystemNotFoundError
 from vf.engine import Violation, InvalidCase
-from vf.fixtures import RecSystem, RecCollector, FalsySystem, check, expect_raises, sized_lists, wone_of
+from vf.fixtures import RecSystem, RecCollector, FalsySystem, near_pow2, check, expect_raises, sized_lists, wone_of
 
 PROPERTY = "C01"
 BUDGET = {"quick": 2400, "thorough": 6000}
@@ -55,9 +55,31 @@ def _bulk_case(draw):
     return {"ops": ops}
 
 
+def _large_case(draw):
+    """many systems: crosses the size thresholds of a would-be fast path (binary insertion, block-wise execution...)"""
+    n = draw(near_pow2(15, 130))
+    pool = n + 3
+    prio = wone_of(st.integers(-3, 3), st.integers(-3, 3), st.sampled_from(PRIOS), st.integers(-40, 40))
+    style = draw(st.sampled_from(["random", "descending", "ascending", "flat"]))
+    ops = []
+    for k, i in enumerate(draw(st.permutations(list(range(pool))))[:n]):
+        p = {"random": None, "descending": n - k, "ascending": k, "flat": 0}[style]
+        ops.append({"op": "add", "id": i, "prio": draw(prio) if p is None else p, "kind": "sys", "np": None})
+        if k in (n // 2, n - 2):
+            ops.append({"op": "step", "n": 1})
+    ops.append({"op": "step", "n": 1})
+    tail = wone_of(st.fixed_dictionaries({"op": st.just("add"), "id": st.integers(0, pool - 1), "prio": prio, "kind": st.just("sys"), "np": st.none()}),
+                   st.fixed_dictionaries({"op": st.just("remove"), "id": st.integers(0, pool - 1)}),
+                   st.fixed_dictionaries({"op": st.just("step"), "n": st.just(1)}))
+    ops += draw(sized_lists(tail, 0, 25))
+    return {"pool": pool, "ops": ops}
+
+
 def strategy(tier):
     hist = st.builds(lambda ops: {"ops": ops}, wone_of(st.lists(_op(), min_size=1, max_size=40), sized_lists(_op(), 5, 40)))
-    return wone_of(hist, hist, st.composite(_bulk_case)(), st.composite(_bulk_case)(), st.composite(_perm_case)())
+    small = wone_of(hist, hist, st.composite(_bulk_case)(), st.composite(_bulk_case)(), st.composite(_perm_case)())
+    large = st.composite(_large_case)()
+    return wone_of(*([small] * 14 + [large]))
 
 
 def exhaustive(tier):
@@ -91,6 +113,7 @@ def as_priority(op, prio):
 
 
 def run_case(case):
+    POOL = max(1, min(int(case.get("pool", 7)), 300))          # number of system ids (large cases cross size thresholds)
     model = Model()
     log = []
     live = {}          # id -> (obj, prio, seq, token)
@@ -163,6 +186,9 @@ def run_case(case):
                 labels.add("tie+levels")
             if len(prios) >= 5:
                 labels.add("live>=5")
+            for thr in (16, 32, 64, 128):
+                if len(prios) > thr:
+                    labels.add(f"live>{thr}")
             if any(p < 0 for p in prios) and any(p > 0 for p in prios):
                 labels.add("mixed-sign")
         else:
